@@ -9,7 +9,6 @@ import (
 	"go/types"
 	"strings"
 
-	"golang.org/x/tools/go/types/typeutil"
 )
 
 func init() {
@@ -169,31 +168,48 @@ func runC09(r *Run) {
 			case lastWrite < lastExec:
 				r.bad("R09.1", c+":ret", ret.Pos(), "drain order at ret is %v: the execute units are drained after the last drain of the write units, so what they put on the write bus is never written", seq)
 			default:
-				r.ok("R09.1", c+":ret", ret.Pos(), "drain loops at ret: %v (execute units, then write units)", seq)
-			}
-		}
-		// R09.4 (= exit guard of R07.6)
-		guarded := false
-		if loop := v.mainLoop(); loop != nil && v.isEmpty != nil {
-			ast.Inspect(loop.Body, func(n ast.Node) bool {
-				if is, ok := n.(*ast.IfStmt); ok {
-					if call, ok := ast.Unparen(is.Cond).(*ast.CallExpr); ok {
-						if f, ok := typeutil.Callee(v.info, call).(*types.Func); ok {
-							if fd, _ := w.FuncDecl(f); fd == v.isEmpty && len(is.Body.List) > 0 {
-								if b, ok := is.Body.List[len(is.Body.List)-1].(*ast.BranchStmt); ok && b.Tok == token.BREAK {
-									guarded = true
+				// what holds when the last drains stop
+				atoms := map[string]bool{}
+				var problems []string
+				collect := func(stmts []ast.Stmt) {
+					for _, s := range stmts {
+						ast.Inspect(s, func(n ast.Node) bool {
+							if fs, ok := n.(*ast.ForStmt); ok {
+								if v.cyclesRole(fs.Body, "exec") || v.cyclesRole(fs.Body, "write") {
+									a, p := v.exitAtoms(w, fs)
+									for k := range a {
+										atoms[k] = true
+									}
+									problems = append(problems, p...)
+									return false
 								}
 							}
-						}
+							return true
+						})
 					}
 				}
-				return true
-			})
+				collect(ret.Body.List)
+				collect(after)
+				need := []string{"exec", "write"}
+				if rb := v.resultBus(); rb != nil {
+					need = append(need, "bus:"+rb.name)
+				}
+				var missing []string
+				for _, n := range need {
+					if !atoms[n] {
+						missing = append(missing, n)
+					}
+				}
+				if len(missing) == 0 && len(problems) == 0 {
+					r.ok("R09.1", c+":ret", ret.Pos(), "drain loops at ret: %v (execute units, then write units); they stop only when %v are empty", seq, need)
+				} else {
+					r.bad("R09.1", c+":ret", ret.Pos(), "the drains at ret (%v) can stop while a stage still holds older work: not required empty at exit: %v %v", seq, missing, problems)
+				}
+			}
 		}
-		r.check(guarded, "R09.4", c+":exit-guard", v.run.Pos(), "the fall-off-the-end exit is `if <completion predicate>() { break }` (coverage of the predicate is R07.6)")
-
 		ruleRetUnits(r, v, "R09.2", "R09.3", false)
 	}
+	ruleCompletionPredicate(r, "R09.4")
 	r.floor("R09.2b", 7)
 	ruleDispatchBookkeeping(r, "R09.2b")
 }
